@@ -128,6 +128,8 @@ def generate(rng, tier):
             "rng": seams.gen_rng_case(rng, 0.35, 60),
             "pick": rng.getrandbits(20),
         })
+    integers = list(integers)
+    rng.shuffle(integers)  # the order in which the integer variables are designated carries no meaning
     return {"c": c, "A": A, "b": b, "integers": integers, "minimize": minimize, "ub": ub, "free_var": free_var, "configs": configs}
 
 
